@@ -1,5 +1,5 @@
 /-
-C05 — the bodies that `evalBody` does not interpret yet (tab-stop loops, REP, resize): their translated statement skeleton is pinned literally, so that an edit of one of these Go
+C05 — the bodies that `evalBody` does not interpret yet (tab-stop loops, resize): their translated statement skeleton is pinned literally, so that an edit of one of these Go
 bodies changes `Gen/TermBodies.lean` and breaks the corresponding `shape_<fn>` (then the
 correspondence run decides whether the model still agrees). Weaker than `body_<fn>` in
 Props/C05Bodies.lean: it says WHAT the source is, not that the model equals it.
@@ -36,19 +36,6 @@ theorem shape_tbc : TermBodies.stmt_tbc =
  (.ite (.cmp .eq (.loc (.var 0)) (.lit 3))
  (.unknown "vt.tabStop = []column{}")
  .skip)) := rfl
-
-theorem shape_rep : TermBodies.stmt_rep =
- (.seq (.setLastCol false)
- (.seq (.assign (.var 1) (.loc .curCol))
- (.seq (.ite (.cmp .eq (.loc (.var 1)) (.lit 0))
- .ret
- .skip)
- (.seq (.unknown "ch := vt.activeScreen[vt.cursor.row][col-1]")
- (.forUp (.lit 0) (.lt (.loc (.var 0)))
- (.seq (.ite (.cmp .ge (.add (.loc (.var 1)) (.lv 0)) (.loc .right))
- .ret
- .skip)
- (.unknown "vt.activeScreen[vt.cursor.row][vt.cursor.col+column(i)].Character = ch.Character"))))))) := rfl
 
 theorem shape_resize : TermBodies.stmt_resize =
  (.seq (.unknown "primary := vt.primaryScreen")
